@@ -196,7 +196,7 @@ def run(ctx):
     else:
         n = 0
         for size in SIZES:
-            for _ in range(2000):
+            for _ in range(5000):
                 n += 1
                 if not ctx.mine(n):
                     continue
